@@ -42,6 +42,8 @@ def _case(draw):
     case["_kind"] = draw(st.sampled_from(KINDS))
     if case["_kind"] == "solver":
         case["_algo"] = draw(st.sampled_from(list(pkg.ALGOS)))
+    # the optional entry of leaf_syntenies for the root of the object tree (a prescribed root order)
+    case["_proot"] = draw(st.booleans())
     return case
 
 
@@ -177,6 +179,9 @@ def check(case):
         data = dict(base)
         if kind == "RI":
             data.pop("leaf_syntenies", None)
+        elif case.get("_proot") and inst.ochildren[inst.oroot]:
+            data["leaf_syntenies"] = dict(data["leaf_syntenies"], **{inst.oroot: list(case["_lab_o"][inst.oroot])})
+            labels.append("prescribed_root")
         obj = pkg.guarded(cls.from_dict, data)
         # the object must first of all reflect the documented-format case itself
         diff = _first_diff(_dict_view(dict(data)), _snapshot(obj))
